@@ -37,6 +37,7 @@ func (s *Sim) LivenessSuffix() {
 		n.Disk.Mode = SnapFresh
 		n.Disk.TempUnavailable = false
 		n.Opts.LazySync = false
+		n.SlowAppend, n.SlowApply = false, false
 		if n.Opts.ElectionTick > maxET {
 			maxET = n.Opts.ElectionTick
 		}
@@ -65,14 +66,20 @@ func (s *Sim) LivenessSuffix() {
 		return s.convergedBasic() == "" && s.suffixObligations(props, reads) == ""
 	}
 	s.runSuffixRounds(half, done)
-	if s.Stats.has("conf.two_voter_shrink") {
-		s.Stats.inc("live.exempt_two_voter")
-		return
-	}
 	if msg := s.convergedBasic(); msg != "" {
+		// Is a survivor unable to assemble a quorum of a voter set it still
+		// uses, because a majority of that set was removed/demoted and the
+		// survivor has not learnt it? For a two-voter set this is the
+		// documented exception (README); for other sizes it is the same
+		// mechanism, recorded as a known finding.
+		lost, onlyTwo := s.staleQuorumLost()
 		sig := "c15.not_converged"
-		if s.Stats.has("conf.one_voter_shrink") {
-			sig = "c15.not_converged/sole_voter_replaced"
+		switch {
+		case lost && onlyTwo:
+			s.Stats.inc("live.exempt_two_voter")
+			return
+		case lost:
+			sig = "c15.not_converged/stale_quorum_lost"
 		}
 		s.Mon.viol([]string{"C15"}, "converges", sig, "after the fault-free suffix (%d tick rounds): %s | %s", 2*half, msg, s.dumpNodes())
 		return
@@ -316,4 +323,36 @@ func (s *Sim) dumpNodes() string {
 			st.LastIndex, st.LastTerm, st.Commit, st.Applied, confOfState(&st), st.PendingConfIndex, st.LeadTransferee)
 	}
 	return out
+}
+
+// staleQuorumLost reports whether some running member still uses a voter set
+// of which fewer than a quorum are running voters of the committed config.
+// onlyTwo: every such set has exactly two voters.
+func (s *Sim) staleQuorumLost() (lost, onlyTwo bool) {
+	conf := s.Reg.latestConf()
+	onlyTwo = true
+	for _, n := range s.upNodes() {
+		if !conf.IsMember(n.ID) {
+			continue
+		}
+		st := n.RN.VerifState()
+		for _, set := range [][]uint64{st.Voters, st.VotersOutgoing} {
+			if len(set) == 0 {
+				continue
+			}
+			cnt := 0
+			for _, v := range set {
+				if vn := s.Nodes[v]; vn != nil && vn.Up && conf.Voters[v] {
+					cnt++
+				}
+			}
+			if cnt < len(set)/2+1 {
+				lost = true
+				if len(set) != 2 {
+					onlyTwo = false
+				}
+			}
+		}
+	}
+	return lost, onlyTwo
 }
